@@ -159,6 +159,9 @@ func (e *Engine) intrinsic(fn *ssa.Function, args []Val) (Val, bool) {
 	case "vMutexHeld":
 		k := e.ghostKey(args[0].(Ptr))
 		return Bool{C: e.locks != nil && e.locks[k] != 0}, true
+	case "vYield":
+		e.freeYield("vYield")
+		return nil, true
 	case "vSymbolic":
 		// true inside symgo (symbolic exploration and concrete re-execution alike), false natively
 		return Bool{C: true}, true
@@ -503,9 +506,9 @@ func init() {
 		"(*sync.RWMutex).Unlock":  stubUnlock,
 		"(*sync.RWMutex).RLock":   stubRLock,
 		"(*sync.RWMutex).RUnlock": stubRUnlock,
-		"(*sync.WaitGroup).Add":   nop,
-		"(*sync.WaitGroup).Done":  nop,
-		"(*sync.WaitGroup).Wait":  nop,
+		"(*sync.WaitGroup).Add":   stubWGAdd,
+		"(*sync.WaitGroup).Done":  stubWGAdd,
+		"(*sync.WaitGroup).Wait":  stubWGWait,
 		"(*sync.Once).Do": func(e *Engine, fn *ssa.Function, args []Val) Val {
 			p := args[0].(Ptr)
 			o := e.load(p).(Agg)
@@ -518,6 +521,9 @@ func init() {
 			if !e.onceDone[key] {
 				e.onceDone[key] = true
 				e.callVal(args[1], nil)
+				e.release(key)
+			} else {
+				e.acquire(key)
 			}
 			return nil
 		},
@@ -652,7 +658,8 @@ func init() {
 		"reflect.DeepEqual": func(e *Engine, fn *ssa.Function, args []Val) Val {
 			return e.deepEqual(args[0], args[1], 0)
 		},
-		"runtime.Gosched": nop,
+		"time.Sleep": func(e *Engine, fn *ssa.Function, args []Val) Val { e.freeYield("Sleep"); return nil },
+		"runtime.Gosched": func(e *Engine, fn *ssa.Function, args []Val) Val { e.freeYield("Gosched"); return nil },
 		"runtime.KeepAlive": nop,
 	}
 }
@@ -755,13 +762,20 @@ func stubLock(e *Engine, fn *ssa.Function, args []Val) Val {
 	if e.locks == nil {
 		e.locks = map[string]int{}
 	}
+	if fn.Name() != "TryLock" {
+		e.schedPoint("Lock")
+	}
 	if e.locks[k] != 0 {
 		if fn.Name() == "TryLock" {
 			return Bool{}
 		}
-		panic(blockedPath{"deadlock: Lock on a mutex that is already held"})
+		if !e.mt() {
+			panic(blockedPath{"deadlock: Lock on a mutex that is already held"})
+		}
+		e.waitFor(func() bool { return e.locks[k] == 0 }, "Lock of a held mutex")
 	}
 	e.locks[k] = -1
+	e.acquire(k)
 	if fn.Name() == "TryLock" {
 		return Bool{C: true}
 	}
@@ -772,7 +786,9 @@ func stubUnlock(e *Engine, fn *ssa.Function, args []Val) Val {
 	if e.locks == nil || e.locks[k] != -1 {
 		panic(goPanic{msg: "fatal error: sync: unlock of unlocked mutex"})
 	}
+	e.release(k)
 	e.locks[k] = 0
+	e.schedPoint("Unlock")
 	return nil
 }
 func stubRLock(e *Engine, fn *ssa.Function, args []Val) Val {
@@ -780,10 +796,15 @@ func stubRLock(e *Engine, fn *ssa.Function, args []Val) Val {
 	if e.locks == nil {
 		e.locks = map[string]int{}
 	}
+	e.schedPoint("RLock")
 	if e.locks[k] < 0 {
-		panic(blockedPath{"deadlock: RLock on a write-locked mutex"})
+		if !e.mt() {
+			panic(blockedPath{"deadlock: RLock on a write-locked mutex"})
+		}
+		e.waitFor(func() bool { return e.locks[k] >= 0 }, "RLock of a write-locked mutex")
 	}
 	e.locks[k]++
+	e.acquire(k)
 	return nil
 }
 func stubRUnlock(e *Engine, fn *ssa.Function, args []Val) Val {
@@ -791,7 +812,9 @@ func stubRUnlock(e *Engine, fn *ssa.Function, args []Val) Val {
 	if e.locks == nil || e.locks[k] <= 0 {
 		panic(goPanic{msg: "fatal error: sync: RUnlock of unlocked RWMutex"})
 	}
+	e.release(k + ":r")
 	e.locks[k]--
+	e.schedPoint("RUnlock")
 	return nil
 }
 
@@ -1425,8 +1448,14 @@ func (e *Engine) atomicField(p Ptr) Ptr {
 	return Ptr{O: p.O, P: extPath(p.P, len(a.F)-1)}
 }
 
+func (e *Engine) atomicKey(p Ptr) string { return fmt.Sprintf("at%d%v", p.O.id, p.P) }
+
 func stubAtomicAdd(e *Engine, fn *ssa.Function, args []Val) Val {
 	fp := e.atomicField(args[0].(Ptr))
+	e.noRace++
+	defer func() { e.noRace-- }()
+	e.acquire(e.atomicKey(fp))
+	defer e.release(e.atomicKey(fp))
 	cur := e.load(fp).(Int)
 	r := e.intBinop(token.ADD, cur, args[1].(Int), cur.S).(Int)
 	e.store(fp, r)
@@ -1434,6 +1463,9 @@ func stubAtomicAdd(e *Engine, fn *ssa.Function, args []Val) Val {
 }
 
 func stubAtomicLoad(e *Engine, fn *ssa.Function, args []Val) Val {
+	e.noRace++
+	defer func() { e.noRace-- }()
+	e.acquire(e.atomicKey(e.atomicField(args[0].(Ptr))))
 	v := e.load(e.atomicField(args[0].(Ptr)))
 	if fn.Signature.Results().At(0).Type().Underlying().(*types.Basic).Kind() == types.Bool {
 		if i, ok := v.(Int); ok {
@@ -1444,6 +1476,38 @@ func stubAtomicLoad(e *Engine, fn *ssa.Function, args []Val) Val {
 }
 
 func stubAtomicStore(e *Engine, fn *ssa.Function, args []Val) Val {
+	e.noRace++
+	defer func() { e.noRace-- }()
 	e.store(e.atomicField(args[0].(Ptr)), args[1])
+	e.release(e.atomicKey(e.atomicField(args[0].(Ptr))))
+	return nil
+}
+
+// sync.WaitGroup: a counter as ghost state once threads exist (single-threaded paths keep the no-op model)
+func stubWGAdd(e *Engine, fn *ssa.Function, args []Val) Val {
+	if e.wg == nil {
+		e.wg = map[string]int{}
+	}
+	k := "wg" + e.ghostKey(args[0].(Ptr))
+	d := -1
+	if fn.Name() == "Add" {
+		d = int(sext(args[1].(Int).C, 64))
+	}
+	e.wg[k] += d
+	if d < 0 {
+		e.release(k)
+	}
+	if e.wg[k] < 0 && e.mtEver {
+		panic(goPanic{msg: "sync: negative WaitGroup counter"})
+	}
+	return nil
+}
+func stubWGWait(e *Engine, fn *ssa.Function, args []Val) Val {
+	if e.wg == nil || !e.mtEver {
+		return nil // single-threaded path: the goroutines the code would wait for do not exist
+	}
+	k := "wg" + e.ghostKey(args[0].(Ptr))
+	e.waitFor(func() bool { return e.wg[k] <= 0 }, "WaitGroup.Wait")
+	e.acquire(k)
 	return nil
 }
